@@ -65,6 +65,8 @@ MUTATIONS = [
     ('s-daughters-share-processes', 'C11', S, "                processes = copy.deepcopy(mother_processes)\n", "                processes = mother_processes\n"),
     ('s-initial-before-divided', 'C11', S, "            merged_initial_state = deep_merge(\n                daughter_state, daughter.get('initial_state', {}))",
      "            merged_initial_state = deep_merge(\n                dict(daughter.get('initial_state', {})), daughter_state)"),
+    ('s-branch-divider-ignored', 'C11', S, "        divider = self._get_divider()\n        if divider:", "        divider = self._get_divider() if not self.inner else None\n        if divider:"),
+    ('s-quantity-not-halved', 'C11', R, "    elif isinstance(state, (float, Quantity)):\n        half = state/2", "    elif isinstance(state, (float, Quantity)):\n        half = state/2 if isinstance(state, float) else state"),
     ('s-move-no-view-expire', 'C07', S, "                    deletions.extend(move_deletions)\n                    view_expire = True", "                    deletions.extend(move_deletions)"),
     ('s-steps-no-view-rebuild', 'C07', E, "            if view_expire:\n                self.state.build_topology_views()\n\n    def _send_updates", "            pass\n\n    def _send_updates"),
     ('w-glob-no-normalize', 'C06', T, "                    inner = normalize_path(outer + path + (child,))", "                    inner = outer + path + (child,)"),
